@@ -9,6 +9,8 @@ import (
 	"encoding/json"
 	"fmt"
 	"os"
+	"strconv"
+	"syscall"
 	"testing"
 
 	"verif/sim/props"
@@ -17,6 +19,19 @@ import (
 func TestWorker(t *testing.T) {
 	if os.Getenv("VERIF_WORKER") == "" {
 		t.Skip("not started by the driver")
+	}
+	if v := os.Getenv("VERIF_SETUID"); v != "" {
+		// unprivileged worker group (C11): drop root for the whole process
+		id, _ := strconv.Atoi(v)
+		if err := syscall.Setgroups([]int{id}); err != nil {
+			t.Fatalf("setgroups: %v", err)
+		}
+		if err := syscall.Setgid(id); err != nil {
+			t.Fatalf("setgid: %v", err)
+		}
+		if err := syscall.Setuid(id); err != nil {
+			t.Fatalf("setuid: %v", err)
+		}
 	}
 	var out *os.File
 	prefix := ""
